@@ -3,10 +3,11 @@ import json
 import vlib
 from props import subhist_common as S
 from props import sinkbp_common as BP
+from props import connq_common as CQ
 
-TRANSLATORS = ["accept_order"]     # Model/SubBook.v interprets the order of accept()'s steps read from the source
-MODELS = ["subhist", "sinkbp"]
-BINS = {"release": ["subhist", "sinkbp"]}
+TRANSLATORS = ["accept_order", "error_consts"]     # Model/SubBook.v interprets the order of accept()'s steps read from the source; Model/SubBookWire.v (engine subhist) prints the generated codes/messages
+MODELS = ["subhist", "sinkbp", "connq"]
+BINS = {"release": ["subhist", "sinkbp", "connq"]}
 RULE = ("cases = one script line each (subscribe/accept/reject/abandoned call/drop pending/clone/drop/send/try_send/is_closed/return/unsubscribe/"
         "connection drop/server stop over 1..2 connections, several concurrent subscriptions), run on a real "
         "jsonrpsee_server::Server over loop-back WebSocket with a remote-controlled handler (harness/src/bin/subhist.rs) "
@@ -22,13 +23,28 @@ RULE = ("cases = one script line each (subscribe/accept/reject/abandoned call/dr
         "oracle tools/props/sinkbp_common.py:oracle (every received frame is exactly the notification of a produced "
         "payload with the subscription's own id and method, received sequence = payloads of the accepted sends in order, "
         "accepted minus received <= capacity, nothing sent after close is delivered) is evaluated on the implementation "
-        "output alone.  Sources: all short scripts, the fill/fail/recv/re-send family, random walks")
+        "output alone.  Sources: all short scripts, the fill/fail/recv/re-send family, random walks.  Connection queue (engine connq): "
+        "cases = one script line each (subscribe / accept / reject / send / try_send / cancel of the parked future with or without a "
+        "closing value returned in the same poll / return / unsubscribe / ordinary call / writer takes one frame / connection gone; "
+        "capacities 1..4, several subscriptions) run on the subscribe/unsubscribe/method callbacks of a real RpcModule over ONE bounded "
+        "MethodSink with the harness as the connection's writer (harness/src/bin/connq.rs, no server) and on the extracted ConnQueue model "
+        "(modelrun/connq_driver.ml, accept interpreted from the generated accept_steps); diffed group by group; the oracle "
+        "tools/props/connq_common.py:oracle (no notification of a subscription leaves the queue before the successful answer to its "
+        "subscribe call; a subscription whose accept never returned Ok is never named by a frame; items = the sends that reported ok, in "
+        "order; places in use <= capacity; a closing notification is the value the handler returned, at most once) is evaluated on the "
+        "implementation output alone.  Sources: all scripts of <= 4 steps, the parked-and-cancelled accept/reject family with every closing "
+        "value and the queue filled by call answers or by another subscription's notifications, random walks")
 TRUSTED = [
     "modelled, not verified: tokio mpsc/oneshot/semaphore semantics and the WS writer (Model/SubBook.v), tied by the differential run only",
     "harness: handler remote control, quiescence detection (barrier round-trips / idle rounds), counting IdProvider, frame canonicalisation (error.data dropped)",
     "sinkbp: tokio's bounded mpsc (capacity, FIFO, close) is modelled by Model/SinkQueue.v and tied by the differential run only; the harness reads "
     "the kind (Complete/NeedsData) and text of a handed-back SubscriptionMessage off its Debug output, reports a `send` that does not finish in 25 ms "
     "as wouldblock and drops it, uses send_timeout(30 ms), and passes the randomly drawn subscription id from the implementation's output to the model",
+    "connq: tokio's bounded mpsc with its first-come-first-served line of waiting senders, the oneshot of the subscribe call and try_join in the "
+    "spawned task of register_subscription are modelled by Model/ConnQueue.v and tied by the differential run only; the harness re-implements the "
+    "few lines of the WS transport that decide which answers are written to the sink (method-call kind: yes, subscription kind: no), polls to "
+    "quiescence by a fixed number of yield rounds on a current-thread runtime, cancels a parked handler command by dropping its future in a select!, "
+    "and uses a counting IdProvider (subscription id = 1000 + handle)",
 ]
 ASSUMPTIONS = [
     "partial: real interleavings inside tokio are sampled (one harness-sequenced schedule on a current-thread runtime), not enumerated; "
@@ -42,6 +58,12 @@ ASSUMPTIONS = [
     "'own id and method' is about messages the library completes (From<Box<RawValue>>) and the closing notification; SubscriptionMessage::new lets a handler name any id itself and is not used by the harness",
     "after ServerHandle::stop a connection with an unanswered subscribe call stays open until that call is answered (graceful stop, C10); its subscriptions are closed from then on (theorem C04_stop_closes_idle_connections)",
     "a handler that returned but handed a clone of its sink to another task can still send after the closing notification: the property lists unsubscribe / connection end / server stop as closing events, not handler return",
+    "the connection-level queue shared by several subscriptions and calls, with accept / reject / send PARKED on a full queue and CANCELLED by the handler "
+    "(tokio::time::timeout / select!), is covered by engine connq over Model/ConnQueue.v (theorems C04_cq_*, for all step sequences, capacities and numbers "
+    "of subscriptions): one connection, steps observed at quiescence (one schedule per script; somebody waits only while the queue is full), no abandoned "
+    "subscribe call, no sink clones, no send_timeout there; C04_cq_never_accepted_is_silent is proved through `head_ok accept_steps = true`, computed on the "
+    "order of accept()'s two sends read from the source, and stops compiling when the subscribe call is notified before the answer is handed to the queue; "
+    "the closing notification of a handler that returns after unsubscribe is still written (as in engine subhist: it is the handler's own closing value)",
 ]
 
 
@@ -77,10 +99,13 @@ def run(ctx):
     if skipped:
         ctx.note("%d histories show the C06 clone-drop defect (key %s); excluded from C04's model diff, C04 oracle still applied" % (skipped, S.KNOWN_KEY))
     BP.run(ctx)
+    CQ.run(ctx)
 
 
 def replay(payload):
     case = payload.get("case")
     if isinstance(case, dict) and "bp" in case:
         return BP.replay_case(case)
+    if isinstance(case, dict) and "cq" in case:
+        return CQ.replay_case(case)
     return S.replay_case(payload, "C04")
